@@ -146,6 +146,12 @@ pub fn c37(args: &Args, rep: &mut Report) {
             }
             Ok(got) => {
                 let got: Vec<Option<u128>> = got.into_iter().map(|d| d.map(nanos)).collect();
+                // what the monitor saw of the real iterator
+                rep.count("sequences_compared", 1);
+                rep.count("delays_compared", got.iter().flatten().count() as u64);
+                rep.count("sequences_that_ended_at_their_limit", (got.iter().any(|d| d.is_none())) as u64);
+                rep.count("sequences_that_reached_the_cap", expect.iter().flatten().any(|d| *d == mx) as u64);
+                rep.count("policies_where_doubling_would_overflow_duration", overflow as u64);
                 if got != expect {
                     let idx = got.iter().zip(expect.iter()).position(|(a, b)| a != b).unwrap_or(0);
                     let kind = match (got[idx], expect[idx]) {
